@@ -20,6 +20,13 @@ type Cache struct {
 	accessOrder list.List
 }
 
+// Cache keys of Sign/Verify and of BatchVerify live in separate domains: a single message that
+// happens to equal the hashed encoding of a batch must not share an entry with that batch.
+const (
+	verifyKeyTag = 'V'
+	batchKeyTag  = 'B'
+)
+
 // writeSignature writes the signature bytes and the claimed participants to the key:
 // the same bytes under different signer labels are a different signature.
 func writeSignature(key *strings.Builder, signature hotstuff.QuorumSignature) {
@@ -69,6 +76,7 @@ func (cache *Cache) Sign(message []byte) (sig hotstuff.QuorumSignature, err erro
 	}
 	var key strings.Builder
 	hash := sha256.Sum256(message)
+	_ = key.WriteByte(verifyKeyTag)
 	_, _ = key.Write(hash[:])
 	writeSignature(&key, sig)
 	cache.insert(key.String())
@@ -83,6 +91,7 @@ func (cache *Cache) Verify(signature hotstuff.QuorumSignature, message []byte) e
 	}
 	var key strings.Builder
 	hash := sha256.Sum256(message)
+	_ = key.WriteByte(verifyKeyTag)
 	_, _ = key.Write(hash[:])
 	writeSignature(&key, signature)
 
@@ -116,6 +125,7 @@ func (cache *Cache) BatchVerify(signature hotstuff.QuorumSignature, batch map[ho
 	hasher.Sum(hash[:0])
 
 	var key strings.Builder
+	_ = key.WriteByte(batchKeyTag)
 	_, _ = key.Write(hash[:])
 	writeSignature(&key, signature)
 
